@@ -140,7 +140,42 @@ func ladderFamilies() []ladderFam {
 		ladderFam{"N bytes then a truncated \\u", func(n int) string { return `"` + strings.Repeat("a", n) + `\u12` }, "string"},
 		ladderFam{"N bytes then a lone high surrogate", func(n int) string { return `"` + strings.Repeat("a", n) + `\ud83d"` }, "string"},
 	)
+	// N sibling containers (closed one after the other, never nested): a depth counter that drifts by one per
+	// sibling reaches the nesting limit of 10000 on a flat document. These families have their own ladder.
+	sib := func(open, inner, close string) func(n int) string {
+		return func(n int) string {
+			var sb strings.Builder
+			sb.WriteString(open)
+			for i := 0; i < n; i++ {
+				if i > 0 {
+					sb.WriteByte(',')
+				}
+				sb.WriteString(strings.Replace(inner, "#", fmt.Sprint(i), -1))
+			}
+			sb.WriteString(close)
+			return sb.String()
+		}
+	}
+	fams = append(fams,
+		ladderFam{"siblings: unknown member holding N objects", sib(`{"x":[`, `{"id":#}`, `],"a":1,"b":"end"}`), "struct{A int;B string}"},
+		ladderFam{"siblings: unknown member holding N arrays in an object", sib(`{"x":{`, `"k#":[#]`, `},"a":1,"b":"end"}`), "struct{A int;B string}"},
+		ladderFam{"siblings: N objects into []interface{}", sib(`[`, `{"id":#}`, `]`), "[]interface{}"},
+		ladderFam{"siblings: N arrays into map[string]interface{}", sib(`{`, `"k#":[#]`, `}`), "map[string]interface{}"},
+		ladderFam{"siblings: RawMessage of N objects", sib(`[`, `{"id":[#]}`, `]`), "RawMessage"},
+		ladderFam{"siblings: N objects then N arrays into interface{}", func(n int) string {
+			return `{"a":` + sib(`[`, `{}`, `]`)(n) + `,"b":` + sib(`{`, `"k#":[]`, `}`)(n) + `}`
+		}, "interface{}"},
+	)
 	return fams
+}
+
+// siblingNs: the ladder of the "siblings:" families (the nesting limit of the library is 10000).
+func siblingNs(quick bool) []int {
+	ns := []int{0, 1, 2, 100, 4999, 5000, 5001, 9998, 9999, 10000, 10001, 10002, 12000}
+	if !quick {
+		ns = append(ns, 19999, 20000, 20001, 30001, 100000)
+	}
+	return ns
 }
 
 // mode 0: C06 (every entry point returns); 1: C09 (stream = buffer, chunking-independent);
@@ -175,9 +210,13 @@ func lengthLadders(c *work.Ctx, mode int) {
 		}
 		panic("no destination " + name)
 	}
-	ns := ladderNs(c.Quick())
+	ns0 := ladderNs(c.Quick())
 	for _, f := range ladderFamilies() {
 		d := find(f.dest)
+		ns := ns0
+		if strings.HasPrefix(f.name, "siblings:") {
+			ns = siblingNs(c.Quick())
+		}
 		for _, n := range ns {
 			doc := f.mk(n)
 			b := []byte(doc)
